@@ -1,9 +1,11 @@
 package main
 
 import (
+	"encoding/binary"
 	"encoding/json"
 	"fmt"
 	"hash/fnv"
+	"math"
 	"runtime/debug"
 	"sort"
 	"strings"
@@ -54,6 +56,43 @@ type subject struct {
 	// nil when the reference cannot evaluate the model on it (then it is not used).
 	FeedC map[string]*ref.T
 	expC  map[string]*ref.T
+	// Model2: the same graph with other float weights (nil when the subject has no float initializer); exp2 = its
+	// reference outputs on feed A. Loading and running it next to the subject must not disturb either.
+	Model2 []byte
+	exp2   map[string]*ref.T
+}
+
+// otherWeights returns the model with every float32 initializer replaced by v*0.5+0.25 (nil if there is none).
+func otherWeights(model []byte) []byte {
+	mp := &onnx.ModelProto{}
+	if err := proto.Unmarshal(model, mp); err != nil || mp.Graph == nil {
+		return nil
+	}
+	changed := false
+	for _, init := range mp.Graph.Initializer {
+		if init.DataType != int32(onnx.TensorProto_FLOAT) {
+			continue
+		}
+		if len(init.RawData) > 0 && len(init.RawData)%4 == 0 {
+			raw := append([]byte{}, init.RawData...)
+			for i := 0; i+4 <= len(raw); i += 4 {
+				v := math.Float32frombits(binary.LittleEndian.Uint32(raw[i:]))
+				binary.LittleEndian.PutUint32(raw[i:], math.Float32bits(v*0.5+0.25))
+			}
+			init.RawData, changed = raw, true
+		}
+		for i, v := range init.FloatData {
+			init.FloatData[i], changed = v*0.5+0.25, true
+		}
+	}
+	if !changed {
+		return nil
+	}
+	b, err := proto.Marshal(mp)
+	if err != nil {
+		return nil
+	}
+	return b
 }
 
 // oddFeed: feed A with its first caller tensor (sorted by name) one element longer on the last axis.
@@ -90,11 +129,12 @@ const (
 	opRunOddFirst
 	opRunOddLast
 	opScribbleOutputs
+	opOtherModel
 	nHistOps
 )
 
 var histOpNames = []string{"Run(A)", "Run(B)", "Run(fresh copy of A)", "RunFail(wrong rank)", "RunFail(missing input)", "Run(outputs of previous Run fed back)",
-	"caller overwrites the contents of A in place (A <-> B values)", "Run(A with its first tensor one longer on the last axis; outcome not judged)", "Run(A with its last tensor one longer on the last axis; outcome not judged)", "caller overwrites the contents of the tensors the previous Run returned"}
+	"caller overwrites the contents of A in place (A <-> B values)", "Run(A with its first tensor one longer on the last axis; outcome not judged)", "Run(A with its last tensor one longer on the last axis; outcome not judged)", "caller overwrites the contents of the tensors the previous Run returned", "a second model (same graph, other weights) is loaded and Run(A)"}
 
 func sameShapes(a, b map[string]*ref.T) bool {
 	if len(a) != len(b) {
@@ -129,6 +169,9 @@ func (s *subject) applicable() []int {
 		}
 	}
 	ops = append(ops, opScribbleOutputs)
+	if s.Model2 != nil {
+		ops = append(ops, opOtherModel)
+	}
 	return ops
 }
 
@@ -241,6 +284,39 @@ func (s *subject) runHistory(seq []int) (v *hx.Violation, states map[uint64]bool
 			sh[ax]++
 			feed[ks[ti]] = hx.ToG(perturb(&ref.T{DT: s.FeedA[ks[ti]].DT, Shape: sh, V: make([]uint64, ref.NElem(sh))}, 57))
 			unjudged = true
+		}
+		if op == opOtherModel {
+			// another model in the same process: it must compute ITS result, and leave this one alone (snapshots
+			// below via the next steps; its own outputs here)
+			m2, err := gonnx.NewModelFromBytes(s.Model2)
+			if err != nil {
+				return mk("refused", fmt.Sprintf("step %d (%s) of %v: the second model does not load: %v", step, histOpName(op), seqNames(seq), err)), states, transitions
+			}
+			f2 := gonnx.Tensors{}
+			for k, t := range s.FeedA {
+				f2[k] = hx.ToG(t)
+			}
+			o2, err := m2.Run(f2)
+			if err != nil {
+				return mk("history-dependent", fmt.Sprintf("step %d (%s) of %v: Run on the second model failed: %v", step, histOpName(op), seqNames(seq), err)), states, transitions
+			}
+			for _, o := range s.Outs {
+				rt, e := hx.FromG(o2[o])
+				if e != nil || rt == nil {
+					return mk("nil-output", fmt.Sprintf("step %d (%s) of %v: output %q of the second model nil/unreadable", step, histOpName(op), seqNames(seq), o)), states, transitions
+				}
+				if k, d := hx.CompareT(rt, s.exp2[o], s.cmp); k != "" {
+					return mk("history-dependent", fmt.Sprintf("step %d (%s) of %v: output %q of the second model (other weights) differs from its reference value: %s", step, histOpName(op), seqNames(seq), o, d)), states, transitions
+				}
+			}
+			now, d := snapAll()
+			states[d] = true
+			for k, b := range base {
+				if diff := b.Diff(now[k]); diff != "" {
+					return mk("mutated-weight", fmt.Sprintf("step %d (%s) of %v: %s changed while another model was loaded and run: %s", step, histOpName(op), seqNames(seq), k, diff)), states, transitions
+				}
+			}
+			continue
 		}
 		if op == opScribbleOutputs {
 			// the tensors a Run returned belong to the caller: overwriting them must not reach the model or later Runs
@@ -511,6 +587,11 @@ func (s *subject) prepare() error {
 	if s.expB, err = refRunModel(s.Model, s.FeedB); err != nil {
 		return err
 	}
+	if m2 := otherWeights(s.Model); m2 != nil {
+		if e2, err2 := refRunModel(m2, s.FeedA); err2 == nil {
+			s.Model2, s.exp2 = m2, e2
+		}
+	}
 	return nil
 }
 
@@ -663,9 +744,9 @@ func checkC02(c *hx.Checker) {
 		depth = 5
 	}
 	c.Rule = fmt.Sprintf("subjects: (i) every registered operator as a single-node model under every role assignment of its tensor inputs (caller input / initializer; for operators with > 3 tensor inputs: none, all, each single one, all-but-one as initializer), (ii) compositions ConstantOfShape->GRU.initial_h and Constant->Conv.bias->ArgMax, and nodes whose inputs all name one and the same caller tensor / weight (Gemm{transA}, Gemm{transB}, MatMul, Add, Mul, Sub, Concat, PRelu), (iii) sample models mlp, scaler, gru (thorough: + ndm). "+
-		"history alphabet on ONE loaded Model with persistent caller tensor objects A and B (B = other values; other batch size for the sample models): Run(A), Run(B), Run(fresh copy of A), RunFail(wrong rank), RunFail(missing input), Run(state outputs of the previous Run fed back as the very same tensor objects), the caller overwriting the contents of the A tensor objects in place (A then carries B's values and vice versa), Run with the first / last caller tensor one element longer on its last axis (single-node models declare symbolic dims, so the call reaches the operator and typically fails inside it; its outcome is not judged), the caller overwriting the contents of the tensors the previous Run returned (they are the caller's; nothing of the model may alias them); additionally every caller tensor x every axis made one element longer, embedded in 5-7 short histories per (tensor, axis). "+
-		"ALL sequences of depth <= %d are executed, each on a freshly loaded model. After every operation: outputs equal the reference evaluation of the model for these inputs AND are bit-identical to the first Run on the same values in this history; deep snapshots (shape, strides, dtype, flags, every element bit) of A, B and of every weight tensor plus the marshalled model proto equal their load-time value. "+
-		"states = distinct (weights + proto + caller tensors) digests observed (1 per subject when the property holds, 2 with the caller's own in-place refill), transitions = operations executed; non-trivial = histories with >= 2 operations", depth)
+		"history alphabet on ONE loaded Model with persistent caller tensor objects A and B (B = other values; other batch size for the sample models): Run(A), Run(B), Run(fresh copy of A), RunFail(wrong rank), RunFail(missing input), Run(state outputs of the previous Run fed back as the very same tensor objects), the caller overwriting the contents of the A tensor objects in place (A then carries B's values and vice versa), Run with the first / last caller tensor one element longer on its last axis (single-node models declare symbolic dims, so the call reaches the operator and typically fails inside it; its outcome is not judged), the caller overwriting the contents of the tensors the previous Run returned (they are the caller's; nothing of the model may alias them), loading a second model with the same graph and other weights and running it (it must return ITS reference result and leave the first model alone); additionally every caller tensor x every axis made one element longer, embedded in 5-7 short histories per (tensor, axis). "+
+		"ALL sequences of depth < %d over the whole alphabet and all sequences of depth %d over the alphabet without the one-longer calls, the overwritten outputs and the second model are executed, each on a freshly loaded model. After every operation: outputs equal the reference evaluation of the model for these inputs AND are bit-identical to the first Run on the same values in this history; deep snapshots (shape, strides, dtype, flags, every element bit) of A, B and of every weight tensor plus the marshalled model proto equal their load-time value. "+
+		"states = distinct (weights + proto + caller tensors) digests observed (1 per subject when the property holds, 2 with the caller's own in-place refill), transitions = operations executed; non-trivial = histories with >= 2 operations", depth, depth)
 	c.Assumptions = []string{"oracle for output values: reference interpreter over the same model bytes (refmodel.go), so state leaking through package-level variables cannot contaminate the expectation",
 		"digest-based pruning is NOT used: a defect may keep its state where the digest cannot see it"}
 	subs := historySubjects(thorough)
@@ -691,7 +772,19 @@ func checkC02(c *hx.Checker) {
 		if thorough && (strings.HasPrefix(s.Name, "sample:") || strings.HasPrefix(s.Name, "comp:")) && s.Name != "sample:ndm" {
 			d = 6
 		}
-		for _, sq := range seqs(alpha, 1, d) {
+		// the whole alphabet up to depth d-1; at depth d the operations that only matter through what follows them
+		// within a short distance (one-longer calls, overwritten outputs, the second model) are left out
+		var core []int64
+		for _, o := range alpha {
+			switch int(o) {
+			case opRunOddFirst, opRunOddLast, opScribbleOutputs, opOtherModel:
+			default:
+				core = append(core, o)
+			}
+		}
+		all := seqs(alpha, 1, d-1)
+		all = append(all, seqs(core, d, d)...)
+		for _, sq := range all {
 			seq := make([]int, len(sq))
 			for i, x := range sq {
 				seq[i] = int(x)
